@@ -1518,6 +1518,7 @@ func (rn *runner) concurrentRound() {
 				rn.hungExit()
 			}
 			rn.entered = false
+			rn.printStep("STEP %s @@ %d @@ %s\n", "XRestart", 0, rn.observe()) // io = restarted: the stream monitors start over
 		}
 	}
 }
